@@ -617,6 +617,9 @@ func checkC11(res *Result) {
 				return true
 			})
 			switch {
+			case fs.Cond == nil && fs.Init == nil && singleIteration(f, fs):
+				// `L: for { …; break L }` with no continue: the body runs once (a block with early exits)
+				nLoops--
 			case fs.Cond == nil && hasSelectDefault:
 				kind = "non-blocking drain (select with default: break)"
 				res.ok("C11-R4", encl, pos, "loop without post statement terminates: "+kind)
@@ -667,7 +670,7 @@ func checkBounds(res *Result) {
 	args = append(args, pkgs...)
 	cmd := exec.Command("go", args...)
 	cmd.Dir = repoDir
-	cmd.Env = append(loadEnv(), "GOCACHE="+cache)
+	cmd.Env = append(loadEnv(), "GOCACHE="+cache, "GOFLAGS=-mod=mod") // no -trimpath: the report must name real file paths
 	out, err := cmd.CombinedOutput()
 	if err != nil && !strings.Contains(string(out), "Found Is") {
 		res.undecided("C11-R2", "go build", "-", "the compiler's bounds report could be produced", fmt.Sprintf("%v: %s", err, firstLine(string(out))))
@@ -800,4 +803,62 @@ func typesExpr(e ast.Expr) string {
 		return typesExpr(x.Fun) + "()"
 	}
 	return "?"
+}
+
+// singleIteration: a condition-less for statement whose body cannot complete
+// normally (its last statement is a return or a break out of this loop) and
+// which no continue statement targets. Its body runs at most once.
+func singleIteration(file *ast.File, fs *ast.ForStmt) bool {
+	label := ""
+	ast.Inspect(file, func(n ast.Node) bool {
+		if ls, ok := n.(*ast.LabeledStmt); ok && ls.Stmt == ast.Stmt(fs) {
+			label = ls.Label.Name
+		}
+		return label == ""
+	})
+	if len(fs.Body.List) == 0 {
+		return false
+	}
+	switch last := fs.Body.List[len(fs.Body.List)-1].(type) {
+	case *ast.ReturnStmt:
+	case *ast.BranchStmt:
+		if last.Tok != token.BREAK || (last.Label != nil && last.Label.Name != label) {
+			return false
+		}
+	default:
+		return false
+	}
+	ok := true
+	var walk func(n ast.Node, inner bool)
+	walk = func(n ast.Node, inner bool) {
+		ast.Inspect(n, func(m ast.Node) bool {
+			switch x := m.(type) {
+			case *ast.FuncLit:
+				return false
+			case *ast.ForStmt:
+				if x != fs {
+					walk(x.Body, true)
+					return false
+				}
+			case *ast.RangeStmt:
+				walk(x.Body, true)
+				return false
+			case *ast.BranchStmt:
+				if x.Tok == token.CONTINUE {
+					if x.Label == nil && !inner {
+						ok = false
+					}
+					if x.Label != nil && x.Label.Name == label && label != "" {
+						ok = false
+					}
+				}
+				if x.Tok == token.GOTO {
+					ok = false
+				}
+			}
+			return true
+		})
+	}
+	walk(fs.Body, false)
+	return ok
 }
